@@ -312,7 +312,7 @@ func randSpec(r *common.Rand) *spec {
 	if r.Chance(1, 60) {
 		sp.Fn = "vbad"
 	}
-	sp.Target = pick(r, "memory", "memory", "oci", "file")
+	sp.Target = pick(r, "memory", "memory", "oci", "file", "registry")
 	sp.Exists = r.Chance(2, 3)
 	backed := r.Chance(3, 5)
 	// artifact type
